@@ -118,6 +118,7 @@ Definition kind_cfg (kind : Z) : tcfg :=
   if kind =? 0 then mkCfg PROG_KEY [1; 2; 3; 4; 5; 6; 7; 8] false
   else if kind =? 1 then mkCfg PROG_KEY [9; 8; 7; 6; 5; 4; 3; 2] false
   else if kind =? 2 then mkCfg PROG_KEY [176; 0; 0; 0; 0; 0; 0; 1] true
+  else if kind =? 4 then mkCfg PROG_KEY [7; 0; 0; 0; 0; 0; 0; 0] false   (* FixZ: a discriminant with zero bytes in it *)
   else mkCfg PROG_KEY [165] false.
 
 Definition pad_to (n : Z) (l : list Z) : list Z := ztake n (l ++ zrepeat 0 n).
@@ -125,7 +126,7 @@ Definition pad_to (n : Z) (l : list Z) : list Z := ztake n (l ++ zrepeat 0 n).
 (* encoding of the initial value handed to Create(..) *)
 Definition init_body (kind argform : Z) (ival : list Z) : list Z :=
   let dflt := (argform =? 0) || (argform =? 1) in
-  if kind =? 0 then (if dflt then zrepeat 0 13 else pad_to 13 ival)
+  if (kind =? 0) || (kind =? 4) then (if dflt then zrepeat 0 13 else pad_to 13 ival)
   else if kind =? 1 then zrepeat 0 6
   else if kind =? 2 then (if dflt then [0; 0; 0; 0] else le_bytes 4 (zlen ival) ++ ival)
   else (if dflt then zrepeat 0 3 else pad_to 3 ival).
